@@ -511,8 +511,16 @@ R_CONTRACTS = [
                                 "bcall_arg('send_record', 0, 0) == json_bytes({'ack': 'ok', 'sha256': hexstr(datahash)})")]),
     Contract(f"{RECV}:Receiver._handle_text", props=[PROP], params={"them_d": "json", "w": "obj[Wormhole]"}, self_fields=R_SELF,
              raises={"KeyError": None, "TypeError": None, "IndexError": None},
-             internal_ensures=[("acks-the-message", "bcall_names() == ['send_message'] and bcall_arg('send_message', 0, 0) == "
-                                                    "json_bytes({'answer': {'message_ack': 'ok'}})")]),
+             internal_ensures=[("acks-the-message", "bcall_names() == ['print', 'send_message'] and bcall_arg('send_message', 0, 0) == "
+                                                    "json_bytes({'answer': {'message_ack': 'ok'}})"),
+                               ("the-text-is-printed-exactly-once-through-the-terminal-safe-escaping-to-stdout",
+                                "bcalls('print') == 1 and print_nargs(0) == 1 and "
+                                "bcall_arg('print', 0, 0) == py_repr(jget(them_d, 'message'))[1:-1] and "
+                                "print_file(0) is self.args.stdout")],
+             ensures_raise={e: [("nothing-printed-nothing-acked", "bcall_names() == []")]
+                            for e in ("KeyError", "TypeError", "IndexError")},
+             note="verified with print() as a recorded boundary call (regf_r_text) and repr() as an uninterpreted function of "
+                  "the value: what reaches the terminal is repr(message)[1:-1], once, on args.stdout, then the ack"),
     Contract(f"{RECV}:Receiver._parse_offer", props=[PROP], params={"them_d": "json", "w": "obj[Wormhole]"}, self_fields=R_SELF,
              requires=c05.CWD_OK, pre_hook=c05.bind_fs, raises={e: None for e in PO_EXC},
              modifies=["abs_destname", "xfersize"] + c05.FS_FIELDS,
@@ -589,6 +597,47 @@ def regf_r():
     return reg
 
 
+def z_repr(jz):
+    """repr(v): an uninterpreted function of the (JSON) value; what it escapes is Python's business"""
+    return uf("py_repr", J, StringS)(jz)
+
+
+def install_print(reg):
+    """print(...) as a recorded boundary call instead of dropped syntax, repr() as an uninterpreted function
+    (only for the functions whose clauses are about what is shown to the user)"""
+    reg.drop_calls = [d for d in reg.drop_calls if d != "print"]
+
+    def b_print(it, args, kw):
+        it.ctx.event("bcall", "builtins", "print", [it.force(a) for a in args], dict(kw))
+        return NONE
+
+    def b_repr(it, args, kw):
+        v = it.force(args[0])
+        return VStr(z_repr(to_json(v)), "str")
+
+    reg.ext_models["builtins.print"] = b_print
+    reg.ext_models["builtins.repr"] = b_repr
+    sf = reg.spec_funcs
+    sf["py_repr"] = lambda it, v: VStr(z_repr(to_json(it.force(v))), "str")
+
+    def prints(it):
+        return [e[1] for e in it.ctx.trace if e[0] == "bcall" and e[1][1] == "print"]
+
+    def print_file(it, k):
+        es = prints(it)
+        k = it.concrete(k)
+        return es[k][3].get("file", NONE) if k < len(es) else NONE
+
+    sf["print_file"] = print_file
+    sf["print_nargs"] = lambda it, k: VInt(len(prints(it)[it.concrete(k)][2]) if it.concrete(k) < len(prints(it)) else -1)
+
+
+def regf_r_text():
+    reg = regf_r()
+    install_print(reg)
+    return reg
+
+
 def regf_s():
     reg = make_registry()
     install_trace_funcs(reg)
@@ -629,7 +678,7 @@ def tasks():
     for c in P_CONTRACTS:
         inl = c.target.endswith(("connectConsumer", "recordReceived"))
         out.append(ContractTask(c, regf_p_all if c.target.endswith("writeToFile") else regf_p_w2c if inl else regf_p))
-    out += [ContractTask(c, regf_r) for c in R_CONTRACTS]
+    out += [ContractTask(c, regf_r_text if c.target.endswith("Receiver._handle_text") else regf_r) for c in R_CONTRACTS]
     out += [ContractTask(c, regf_s) for c in S_CONTRACTS]
     out.append(FuncTask("stable-fields", stable_fields_task, True, "frame"))
     # byte-exactness also rests on (a) the download file being opened fresh (truncating "wb") at destination+".tmp"
